@@ -1,7 +1,7 @@
 """C20 - MPE returns a most probable world consistent with the evidence (problog/tasks/mpe.py, both modes)."""
 import math
 
-from pbt.core.api import Failure, Outcome, SubCheck
+from pbt.core.api import Failure, Outcome, SubCheck, case_hash
 from pbt.core import plrun
 from pbt.gen import programs as gp
 from pbt.ref import semantics as sem
@@ -60,19 +60,6 @@ def _ground_dag(src, with_output_label):
     return LogicDAG.createFrom(PrologString(src), **kw)
 
 
-def dag_atoms(dag):
-    """[(name Term, probability float|None, is_extra)] of the probabilistic atoms of the ground program."""
-    out = []
-    for i, n, t in dag:
-        if t == "atom":
-            try:
-                p = float(n.probability) if n.probability is not True else None
-            except Exception:
-                p = None
-            out.append((n.name, p, bool(getattr(n, "is_extra", False))))
-    return out
-
-
 def run_mode(src, mode):
     """-> ('ok', prob, [Term]) | ('unsat', how) | ('error', cls) | ('crash', sig) | ('resource', name), atoms"""
     from problog.program import PrologString
@@ -87,10 +74,10 @@ def run_mode(src, mode):
         with plrun.captured_output():
             if mode == "maxsat":
                 dag = _ground_dag(src, True)
-                atoms = dag_atoms(dag)
+                atoms = cw.atoms_of(dag)
                 prob, facts = mpe.mpe_maxsat(dag, verbose=None, solver=None, minpe=False)
             else:
-                atoms = dag_atoms(_ground_dag(src, False))
+                atoms = cw.atoms_of(_ground_dag(src, False))
                 lf = LogicFormula.create_from(PrologString(src), label_all=True, avoid_name_clash=True)
                 prob, facts = mpe.mpe_semiring(lf, None, minpe=False)
         if facts is None:
@@ -108,100 +95,12 @@ def run_mode(src, mode):
         return plrun.classify_exception(exc), atoms
 
 
-# ------------------------------------------------------------------------------------------------ name mapping
-
-def parse_name(t):
-    """Term name of a probabilistic atom -> ('pfact', text) | ('ad', gid, idx|'e', head text, vars tuple)."""
-    if getattr(t, "functor", None) == "choice" and len(t.args) >= 3:
-        idx = str(t.args[1])
-        vs = tuple(str(a) for a in t.args[3:])
-        gid = (str(t.args[0]), vs)
-        if idx == "e":
-            return ("ad", gid, "e", None, vs)
-        try:
-            return ("ad", gid, int(idx), str(t.args[2]), vs)
-        except ValueError:
-            return ("pfact", str(t))
-    return ("pfact", str(t))
-
-
-def _pclose(a, b):
-    return a is not None and abs(a - float(b)) <= 1e-9
-
-
-def map_atoms(atoms, lay):
-    """Map the tool's probabilistic atoms to reference (choice, value) pairs.
-
-    Returns (by_name, dref, unmapped): by_name[text] = list of (ci, vi | 'rest') (several for duplicate names);
-    dref = {ci: set(vi)}; unmapped = list of atom texts without a counterpart."""
-    by_name = {}
-    dref = {}
-    unmapped = []
-    used = set()
-    groups = {}
-    for name, p, is_extra in atoms:
-        pn = parse_name(name)
-        if pn[0] == "pfact":
-            cands = [ci for ci in lay.choices if ci not in used and lay.kind[ci] == "pfact"
-                     and lay.heads[ci][0] == pn[1] and _pclose(p, lay.probs[ci][0])]
-            if not cands:
-                unmapped.append(str(name))
-                continue
-            ci = cands[0]
-            used.add(ci)
-            dref.setdefault(ci, set()).add(0)
-            by_name.setdefault(pn[1], []).append((ci, 0))
-        else:
-            groups.setdefault(pn[1], []).append((name, p, pn))
-    for gid in sorted(groups):
-        members = groups[gid]
-        vs = gid[1]
-
-        def fits(ci, exact):
-            if lay.kind[ci] != "ad" or ci in used:
-                return False
-            if exact:
-                if lay.key[ci] != vs:
-                    return False
-            elif sorted(lay.key[ci]) != sorted(vs):
-                return False
-            for name, p, pn in members:
-                if pn[2] == "e":
-                    continue
-                i = pn[2]
-                if i >= len(lay.heads[ci]) or lay.heads[ci][i] != pn[3] or not _pclose(p, lay.probs[ci][i]):
-                    return False
-            return True
-
-        cands = [ci for ci in lay.choices if fits(ci, True)] or [ci for ci in lay.choices if fits(ci, False)]
-        if not cands:
-            unmapped.extend(str(m[0]) for m in members)
-            continue
-        ci = cands[0]
-        used.add(ci)
-        for name, p, pn in members:
-            if pn[2] == "e":
-                by_name.setdefault(str(name), []).append((ci, "rest"))
-            else:
-                dref.setdefault(ci, set()).add(pn[2])
-                by_name.setdefault(str(name), []).append((ci, pn[2]))
-        dref.setdefault(ci, set())
-    return by_name, dref, unmapped
-
+# ------------------------------------------------------------------------------------------------ literals
 
 def split_literal(t):
     if t.is_negated():
         return False, -t
     return True, t
-
-
-def literal_mask(lay, dref, target, positive):
-    ci, vi = target
-    if vi == "rest":
-        m = lay.full & ~lay.values_mask(ci, dref.get(ci, ()))
-    else:
-        m = lay.vmask(ci, vi)
-    return m if positive else (lay.full & ~m)
 
 
 def assignment_mask(lay, dref, by_name, lits, semantics):
@@ -229,11 +128,11 @@ def assignment_mask(lay, dref, by_name, lits, semantics):
             continue
         if len(targets) == 1:
             if npos:
-                mask &= literal_mask(lay, dref, targets[0], True)
+                mask &= cw.literal_mask(lay, dref, targets[0], True)
             if nneg:
-                mask &= literal_mask(lay, dref, targets[0], False)
+                mask &= cw.literal_mask(lay, dref, targets[0], False)
             continue
-        tm = [literal_mask(lay, dref, tg, True) for tg in targets]
+        tm = [cw.literal_mask(lay, dref, tg, True) for tg in targets]
         k = len(tm)
         atl = cw.at_least_masks(tm, lay.full)  # atl[j]: >= j true
         if semantics == "choice-set":
@@ -297,7 +196,7 @@ def judge(prog, variant, mode, src):
         return Failure("prob-for-zero-evidence", "%s %s: evidence has probability 0 but the tool reports "
                        "probability %r literals %s\n%s" % (mode, variant, prob, lit_txt, src),
                        sig=tag + "prob-for-zero-evidence"), None, info
-    by_name, dref, unmapped = map_atoms(atoms or [], lay)
+    _per_atom, by_name, dref, unmapped = cw.map_atoms(atoms or [], lay)
     if unmapped:
         return None, "unmapped-atom", info
     if mode == "maxsat":
@@ -325,7 +224,7 @@ def judge(prog, variant, mode, src):
             w = next(cw.iter_bits(bad))
             return Failure("evidence-not-decided", "%s %s: the reported literals %s (probability %r) also agree with "
                            "world %s which violates the evidence\n%s" % (
-                               mode, variant, lit_txt, prob, describe_world(lay, w), src),
+                               mode, variant, lit_txt, prob, cw.describe_world(lay, w), src),
                            sig=tag + "evidence-not-decided"), None, info
     pw = {}
     for w in cw.iter_bits(E):
@@ -336,7 +235,7 @@ def judge(prog, variant, mode, src):
         wopt = max(pw, key=lambda w: pw[w])
         return Failure("not-optimal", "%s %s: best evidence-consistent world agreeing with the reported literals %s "
                        "has probability %s (%r) but world %s has %s (%r); reported %r; tol %.3g\n%s" % (
-                           mode, variant, lit_txt, pw[best_w], float(pw[best_w]), describe_world(lay, wopt), opt,
+                           mode, variant, lit_txt, pw[best_w], float(pw[best_w]), cw.describe_world(lay, wopt), opt,
                            float(opt), prob, tol, src), sig=tag + "not-optimal"), None, info
     ok = False
     for w in cw.iter_bits(W):
@@ -351,18 +250,6 @@ def judge(prog, variant, mode, src):
                                       if float(pw[w]) >= (1.0 - tol) * float(opt)))[:6], float(opt), src),
                        sig=tag + "prob-mismatch"), None, info
     return late, None, info
-
-
-def describe_world(lay, w):
-    out = []
-    for ci in lay.choices:
-        v = lay.value(ci, w)
-        hs = lay.heads[ci]
-        if v < len(hs):
-            out.append("%s#%d=%s" % (lay.kind[ci], ci, hs[v]))
-        else:
-            out.append("%s#%d(%s)=none" % (lay.kind[ci], ci, "/".join(str(h) for h in hs)))
-    return "{" + ", ".join(out) + "}"
 
 
 def has_evidence(prog):
@@ -416,9 +303,38 @@ def make_check(mode):
     return check
 
 
+def _nontrivial_noq(prog):
+    """Non-trivial rule on the 'noq' variant; None when the reference is oversize."""
+    noq = [s for s in prog if s[0] != "query"]
+    try:
+        ref = sem.evaluate(noq, max_choices=MAXC, max_worlds=MAXW, want_masks=True)
+    except sem.TooLarge:
+        return None
+    E = ref.emask & ref.posw
+    if ref.n_choices < 2 or not E:
+        return False
+    first = None
+    for w in cw.iter_bits(E):
+        if first is None:
+            first = ref.weights[w]
+        elif ref.weights[w] != first:
+            return True
+    return False
+
+
+def _keep(prog):
+    """Generator bias (part of the generator, deterministic in the program): all programs that meet the
+    non-trivial rule are kept, of the others (single choice, unsatisfiable or deterministic evidence) one in three."""
+    if not has_evidence(prog):
+        return False
+    if _nontrivial_noq(prog):
+        return True
+    return int(case_hash(prog), 16) % 3 == 0
+
+
 def _strategy():
     grid = [p for p in gp.PROB_GRID if p not in ("0.0", "1.0")]
-    return gp.programs(allow_neg_query=False, prob_grid=grid).filter(has_evidence).map(lambda p: {"prog": p})
+    return gp.programs(allow_neg_query=False, prob_grid=grid).filter(_keep).map(lambda p: {"prog": p})
 
 
 def render(case):
@@ -499,7 +415,7 @@ def semiring_unsupported_structure(case, failure):
             roots.append((s[1][0], sem._inst(s[1][1], {})))
     qroots = [g for g in ref.query_atoms.values()] if variant == "q" else []
     all_roots = set(roots) | set(qroots)
-    if overlap([support(a, set()) for a in sorted(all_roots)]) or len(roots) != len(set(roots)):
+    if overlap([support(a, set()) for a in roots] + [support(a, set()) for a in sorted(set(qroots))]):
         return True
     if cyclic[0]:
         return True
@@ -529,13 +445,18 @@ def semiring_unsupported_structure(case, failure):
 
 
 def semiring_single_literal_evidence(case, failure):
-    """Class of finding F-C20-4: 'noq' variant whose evidence depends on exactly one probabilistic atom (the
-    conjunction of the evidence nodes is that atom's node, which then carries the name 'query')."""
+    """Class of finding F-C20-4: 'noq' variant whose evidence is equivalent to one literal on one probabilistic
+    atom (reference semantics: the set of worlds satisfying the evidence is exactly the set of worlds in which
+    one choice takes / does not take one value).  The conjunction of the evidence nodes is then that atom's
+    node, which receives the name 'query'."""
     r = _variant_ref(case, failure)
     if r[0] != "noq":
         return False
     ref = r[1]
-    return len(set(rule[3] for rule in ref.rules if rule[3] is not None)) == 1
+    for key, m in ref.cmask.items():
+        if ref.emask == m or ref.emask == (ref.full & ~m):
+            return True
+    return False
 
 
 KNOWN_CLASSES = {
